@@ -7,8 +7,8 @@ package obitag
 // Bounded exhaustive enumeration on the real FindClosests (obitag and obitag2), obirefidx.IndexSequence
 // and Identify.  For each of 12 fixed queries (length 8..14) a pool of references is derived:
 //   P1 = the query, EVERY single edit of it (substitution, deletion, insertion at every position,
-//        ends included -> references shorter and longer than the query) and 5 fixed "foreign" sequences
-//        (unrelated, homopolymer, long and short chimeras of the query);
+//        ends included -> references shorter and longer than the query) and 6 fixed "foreign" sequences
+//        (unrelated, homopolymer, long (up to L+7) and short chimeras of the query);
 //   P2 = EVERY double edit of the query;
 //   P0 = a small structured sub-pool of P1 (+ a few double edits) used where a taxonomy dimension multiplies.
 // Reference databases = every list of 1, 2, 3 references drawn from those pools (see the tier table in
@@ -864,7 +864,7 @@ func TestVerifC15(t *testing.T) {
 		return
 	}
 
-	thorough := verifkit.Thorough()
+	fullTier := verifkit.Thorough()
 	r.Bound("queries", c15queries)
 	r.Bound("P1", "the query + all single edits (substitution/deletion/insertion at every position) + 6 foreign sequences")
 	r.Bound("P2", "all double edits of the query")
@@ -906,56 +906,127 @@ func TestVerifC15(t *testing.T) {
 			k++
 		}
 	})
-	for qi, q := range c15queries {
-		if r.Expired() {
-			return
-		}
-		p := c15buildPool(q, true)
-		n1, n := p.n1, len(p.seqs)
-		if r.Shard == 0 {
-			r.Count("pool_P1", int64(n1))
-			r.Count("pool_P2", int64(n-n1))
-			r.Count("pool_P0", int64(len(p.p0)))
-		}
-		if qi == 0 {
-			r.Sample(c15case{Part: "find", Query: q, Refs: []string{p.seqs[1], p.seqs[n1-1], p.seqs[n-1]}})
-			r.Sample(c15case{Part: "index", Query: q, Refs: []string{q, p.seqs[p.p0[3]], p.seqs[p.p0[len(p.p0)-1]]}, Taxa: []int{4, 12, 10}})
-		}
-		for i := 0; i < n; i++ {
-			r.State("ref:" + q + "/" + p.seqs[i])
-		}
+	// The thorough tier first runs the quick scope on every query (pass 0), then the wider scope
+	// (pass 1, a superset): a run cut by the deadline has still covered every query.
+	passes := []bool{false}
+	if fullTier {
+		passes = []bool{false, true}
+	}
+	pools := make([]*c15pool, len(c15queries))
+	for pass, thorough := range passes {
+		for qi, q := range c15queries {
+			if r.Expired() {
+				return
+			}
+			if pools[qi] == nil {
+				pools[qi] = c15buildPool(q, true)
+			}
+			p := pools[qi]
+			n1, n := p.n1, len(p.seqs)
+			if pass == 0 {
+				if r.Shard == 0 {
+					r.Count("pool_P1", int64(n1))
+					r.Count("pool_P2", int64(n-n1))
+					r.Count("pool_P0", int64(len(p.p0)))
+				}
+				if qi == 0 {
+					r.Sample(c15case{Part: "find", Query: q, Refs: []string{p.seqs[1], p.seqs[n1-1], p.seqs[n-1]}})
+					r.Sample(c15case{Part: "index", Query: q, Refs: []string{q, p.seqs[p.p0[3]], p.seqs[p.p0[len(p.p0)-1]]}, Taxa: []int{4, 12, 10}})
+				}
+				for i := 0; i < n; i++ {
+					r.State("ref:" + q + "/" + p.seqs[i])
+				}
+			}
 
-		// ---- part A: FindClosests / obitag2.FindClosests ----
-		timed("find", func() {
-			for impl := 0; impl < 2; impl++ {
-				// A1: every single-reference database of P1 u P2
-				if r.Mine(k) {
-					for i := 0; i < n; i++ {
-						scratch[0] = i
-						e.evalFind(impl, p, scratch[:1])
+			// ---- part A: FindClosests / obitag2.FindClosests ----
+			timed("find", func() {
+				for impl := 0; impl < 2; impl++ {
+					// A1: every single-reference database of P1 u P2
+					if r.Mine(k) {
+						for i := 0; i < n; i++ {
+							scratch[0] = i
+							e.evalFind(impl, p, scratch[:1])
+						}
+					}
+					k++
+					// A2: every ordered pair (a,b) with a in P1, b in P1 u P2, both orders (quick, obitag2:
+					// b in P1); thorough, queries up to length 11: a in P1 u P2 as well
+					amax, bmax := n1, n
+					if thorough && len(q) <= 11 {
+						amax = n
+					}
+					if !thorough && impl == 1 {
+						bmax = n1 // quick: obitag2 (a near copy of the obitag search) only on P1 x P1
+					}
+					for a := 0; a < amax; a++ {
+						if r.Mine(k) {
+							for b := a; b < bmax; b++ {
+								scratch[0], scratch[1] = a, b
+								e.evalFind(impl, p, scratch[:2])
+								if impl == 0 {
+									e.countSuspect(p, scratch[:2])
+								}
+								if a != b {
+									scratch[0], scratch[1] = b, a
+									e.evalFind(impl, p, scratch[:2])
+								}
+							}
+							if r.Expired() {
+								return
+							}
+						}
+						k++
+					}
+					// A3: every triple a<=b<=c of P1, in all orders when two members share the same number
+					// of 4-mers with the query (otherwise the scan order does not depend on the input
+					// order); thorough (obitag only): c ranges over P1 u P2
+					cmax := n1
+					if thorough && impl == 0 {
+						cmax = n
+					}
+					for a := 0; a < n1; a++ {
+						if r.Mine(k) {
+							for b := a; b < n1; b++ {
+								for c := b; c < cmax; c++ {
+									scratch[0], scratch[1], scratch[2] = a, b, c
+									e.evalFind(impl, p, scratch[:3])
+									wa, wb, wc := p.cwq[a], p.cwq[b], p.cwq[c]
+									if wa == wb || wb == wc || wa == wc {
+										for _, pm := range [][3]int{{a, c, b}, {b, a, c}, {b, c, a}, {c, a, b}, {c, b, a}} {
+											if pm == [3]int{a, b, c} {
+												continue
+											}
+											scratch[0], scratch[1], scratch[2] = pm[0], pm[1], pm[2]
+											e.evalFind(impl, p, scratch[:3])
+										}
+									}
+								}
+								if r.Expired() {
+									return
+								}
+							}
+						}
+						k++
 					}
 				}
-				k++
-				// A2: every ordered pair (a,b) with a in P1, b in P1 u P2, both orders (quick, obitag2:
-				// b in P1); thorough, queries up to length 11: a in P1 u P2 as well
-				amax, bmax := n1, n
-				if thorough && len(q) <= 11 {
-					amax = n
-				}
-				if !thorough && impl == 1 {
-					bmax = n1 // quick: obitag2 (a near copy of the obitag search) only on P1 x P1
-				}
-				for a := 0; a < amax; a++ {
+			})
+
+			// ---- part B: IndexSequence ----
+			ntrees := 1 // quick: caterpillar only
+			if thorough {
+				ntrees = len(e.trees)
+			}
+			timed("index", func() {
+				// B1: every pair a<=b of P1 x trees x every assignment to the 7 nodes x both indexed references
+				for a := 0; a < n1; a++ {
 					if r.Mine(k) {
-						for b := a; b < bmax; b++ {
+						for b := a; b < n1; b++ {
 							scratch[0], scratch[1] = a, b
-							e.evalFind(impl, p, scratch[:2])
-							if impl == 0 {
-								e.countSuspect(p, scratch[:2])
-							}
-							if a != b {
-								scratch[0], scratch[1] = b, a
-								e.evalFind(impl, p, scratch[:2])
+							for ti := 0; ti < ntrees; ti++ {
+								c15forAssign(e.trees[ti].nodes, 2, func(taxa []int) {
+									e.evalIndex(p, scratch[:2], ti, taxa, 0)
+									e.evalIndex(p, scratch[:2], ti, taxa, 1)
+								})
 							}
 						}
 						if r.Expired() {
@@ -964,28 +1035,24 @@ func TestVerifC15(t *testing.T) {
 					}
 					k++
 				}
-				// A3: every triple a<=b<=c of P1, in all orders when two members share the same number
-				// of 4-mers with the query (otherwise the scan order does not depend on the input
-				// order); thorough (obitag only): c ranges over P1 u P2
-				cmax := n1
-				if thorough && impl == 0 {
-					cmax = n
-				}
-				for a := 0; a < n1; a++ {
+				// B2: every triple a<=b<=c of P0 x every indexed reference; quick: caterpillar, every
+				// assignment to one node per LCA level {10,11,12,4}; thorough: the three trees, every
+				// assignment to the 7 nodes
+				for ia, a := range p.p0 {
 					if r.Mine(k) {
-						for b := a; b < n1; b++ {
-							for c := b; c < cmax; c++ {
-								scratch[0], scratch[1], scratch[2] = a, b, c
-								e.evalFind(impl, p, scratch[:3])
-								wa, wb, wc := p.cwq[a], p.cwq[b], p.cwq[c]
-								if wa == wb || wb == wc || wa == wc {
-									for _, pm := range [][3]int{{a, c, b}, {b, a, c}, {b, c, a}, {c, a, b}, {c, b, a}} {
-										if pm == [3]int{a, b, c} {
-											continue
-										}
-										scratch[0], scratch[1], scratch[2] = pm[0], pm[1], pm[2]
-										e.evalFind(impl, p, scratch[:3])
+						for ib := ia; ib < len(p.p0); ib++ {
+							for ic := ib; ic < len(p.p0); ic++ {
+								scratch[0], scratch[1], scratch[2] = a, p.p0[ib], p.p0[ic]
+								for ti := 0; ti < ntrees; ti++ {
+									nodes := e.trees[ti].nodes
+									if !thorough {
+										nodes = leaves
 									}
+									c15forAssign(nodes, 3, func(taxa []int) {
+										for s := 0; s < 3; s++ {
+											e.evalIndex(p, scratch[:3], ti, taxa, s)
+										}
+									})
 								}
 							}
 							if r.Expired() {
@@ -995,133 +1062,80 @@ func TestVerifC15(t *testing.T) {
 					}
 					k++
 				}
-			}
-		})
-
-		// ---- part B: IndexSequence ----
-		ntrees := 1 // quick: caterpillar only
-		if thorough {
-			ntrees = len(e.trees)
-		}
-		timed("index", func() {
-			// B1: every pair a<=b of P1 x trees x every assignment to the 7 nodes x both indexed references
-			for a := 0; a < n1; a++ {
-				if r.Mine(k) {
-					for b := a; b < n1; b++ {
-						scratch[0], scratch[1] = a, b
-						for ti := 0; ti < ntrees; ti++ {
-							c15forAssign(e.trees[ti].nodes, 2, func(taxa []int) {
-								e.evalIndex(p, scratch[:2], ti, taxa, 0)
-								e.evalIndex(p, scratch[:2], ti, taxa, 1)
-							})
-						}
-					}
-					if r.Expired() {
-						return
+				// B3: databases of 4 = the query at the deepest node of the caterpillar + every triple
+				// a<=b<=c of P0 (thorough: of P1), each placed at every LCA level of the query's lineage;
+				// the query is the indexed reference
+				b3 := p.p0
+				if thorough {
+					b3 = make([]int, n1)
+					for i := range b3 {
+						b3[i] = i
 					}
 				}
-				k++
-			}
-			// B2: every triple a<=b<=c of P0 x every indexed reference; quick: caterpillar, every
-			// assignment to one node per LCA level {10,11,12,4}; thorough: the three trees, every
-			// assignment to the 7 nodes
-			for ia, a := range p.p0 {
-				if r.Mine(k) {
-					for ib := ia; ib < len(p.p0); ib++ {
-						for ic := ib; ic < len(p.p0); ic++ {
-							scratch[0], scratch[1], scratch[2] = a, p.p0[ib], p.p0[ic]
+				for ia := range b3 {
+					if r.Mine(k) {
+						for ib := ia; ib < len(b3); ib++ {
+							for ic := ib; ic < len(b3); ic++ {
+								scratch[0], scratch[1], scratch[2], scratch[3] = 0, b3[ia], b3[ib], b3[ic]
+								c15forAssign(leaves, 3, func(tx []int) {
+									taxa := [4]int{4, tx[0], tx[1], tx[2]}
+									e.evalIndex(p, scratch[:4], 0, taxa[:], 0)
+								})
+							}
+							if r.Expired() {
+								return
+							}
+						}
+					}
+					k++
+				}
+			})
+
+			// ---- part C: Identify ----
+			timed("identify", func() {
+				// C1: every pair a<=b of P1 x trees x every assignment to the 7 nodes
+				for a := 0; a < n1; a++ {
+					if r.Mine(k) {
+						for b := a; b < n1; b++ {
+							scratch[0], scratch[1] = a, b
 							for ti := 0; ti < ntrees; ti++ {
-								nodes := e.trees[ti].nodes
-								if !thorough {
-									nodes = leaves
-								}
-								c15forAssign(nodes, 3, func(taxa []int) {
-									for s := 0; s < 3; s++ {
-										e.evalIndex(p, scratch[:3], ti, taxa, s)
+								c15forAssign(e.trees[ti].nodes, 2, func(taxa []int) {
+									e.evalIdentify(p, scratch[:2], ti, taxa)
+								})
+							}
+						}
+						if r.Expired() {
+							return
+						}
+					}
+					k++
+				}
+				// C2: every triple of P0; quick: caterpillar, one node per LCA level; thorough: three
+				// trees, all 7 nodes
+				for ia, a := range p.p0 {
+					if r.Mine(k) {
+						for ib := ia; ib < len(p.p0); ib++ {
+							for ic := ib; ic < len(p.p0); ic++ {
+								scratch[0], scratch[1], scratch[2] = a, p.p0[ib], p.p0[ic]
+								for ti := 0; ti < ntrees; ti++ {
+									nodes := e.trees[ti].nodes
+									if !thorough {
+										nodes = leaves
 									}
-								})
-							}
-						}
-						if r.Expired() {
-							return
-						}
-					}
-				}
-				k++
-			}
-			// B3: databases of 4 = the query at the deepest node of the caterpillar + every triple
-			// a<=b<=c of P0 (thorough: of P1), each placed at every LCA level of the query's lineage;
-			// the query is the indexed reference
-			b3 := p.p0
-			if thorough {
-				b3 = make([]int, n1)
-				for i := range b3 {
-					b3[i] = i
-				}
-			}
-			for ia := range b3 {
-				if r.Mine(k) {
-					for ib := ia; ib < len(b3); ib++ {
-						for ic := ib; ic < len(b3); ic++ {
-							scratch[0], scratch[1], scratch[2], scratch[3] = 0, b3[ia], b3[ib], b3[ic]
-							c15forAssign(leaves, 3, func(tx []int) {
-								taxa := [4]int{4, tx[0], tx[1], tx[2]}
-								e.evalIndex(p, scratch[:4], 0, taxa[:], 0)
-							})
-						}
-						if r.Expired() {
-							return
-						}
-					}
-				}
-				k++
-			}
-		})
-
-		// ---- part C: Identify ----
-		timed("identify", func() {
-			// C1: every pair a<=b of P1 x trees x every assignment to the 7 nodes
-			for a := 0; a < n1; a++ {
-				if r.Mine(k) {
-					for b := a; b < n1; b++ {
-						scratch[0], scratch[1] = a, b
-						for ti := 0; ti < ntrees; ti++ {
-							c15forAssign(e.trees[ti].nodes, 2, func(taxa []int) {
-								e.evalIdentify(p, scratch[:2], ti, taxa)
-							})
-						}
-					}
-					if r.Expired() {
-						return
-					}
-				}
-				k++
-			}
-			// C2: every triple of P0; quick: caterpillar, one node per LCA level; thorough: three
-			// trees, all 7 nodes
-			for ia, a := range p.p0 {
-				if r.Mine(k) {
-					for ib := ia; ib < len(p.p0); ib++ {
-						for ic := ib; ic < len(p.p0); ic++ {
-							scratch[0], scratch[1], scratch[2] = a, p.p0[ib], p.p0[ic]
-							for ti := 0; ti < ntrees; ti++ {
-								nodes := e.trees[ti].nodes
-								if !thorough {
-									nodes = leaves
+									c15forAssign(nodes, 3, func(taxa []int) {
+										e.evalIdentify(p, scratch[:3], ti, taxa)
+									})
 								}
-								c15forAssign(nodes, 3, func(taxa []int) {
-									e.evalIdentify(p, scratch[:3], ti, taxa)
-								})
+							}
+							if r.Expired() {
+								return
 							}
 						}
-						if r.Expired() {
-							return
-						}
 					}
+					k++
 				}
-				k++
-			}
-		})
+			})
+		}
 	}
 	r.RequireNonVacuous("find_ties")
 	r.RequireNonVacuous("find_longer_best_and_low_kmer_tie")
